@@ -114,8 +114,14 @@ def multi_break(seq):
     return False
 
 
-def classify(name, defn, inp=None):
+def classify(name, defn, inp=None, prop=None, observed=None):
     fid = classify_structure(name, defn)
+    if fid is None and prop == "C04" and observed and \
+            observed[0] == "chunked_run_fails" and \
+            "Event sets incoming is not set" in str(observed):
+        # the first chunk alone is incomplete evidence on which the learner
+        # crashes (same defect as the single-job sample of C01)
+        return "KF-PARTIAL-EVIDENCE"
     if fid is None and inp is not None:
         if inp.get("mode") == "c01sub" and name in ("F", "K", "FS", "FL", "FK"):
             return "KF-PARTIAL-EVIDENCE"
@@ -159,7 +165,8 @@ def main():
             r = json.loads(line)
             inp = r["input"]
             defn = dsl.to_tuple(inp["defn"])
-            fid = classify(inp.get("name"), defn, inp)
+            fid = classify(inp.get("name"), defn, inp, prop,
+                           r.get("observed"))
             if fid is None:
                 unclassified.append((prop, r["what"][:200]))
                 continue
